@@ -27,7 +27,7 @@ ASSUMPTIONS = [
     "pyserial wraps OS errors in SerialException)",
 ]
 REQUIRED_CLASSES = ["nontrivial", "latched_then_request", "disconnected_then_request", "fault_in_multi_command",
-                    "connect_after_error", "never_connected_request", "warm_history", "close_raises"]
+                    "connect_after_error", "never_connected_request", "warm_history", "close_raises", "flood_of_later_errors"]
 QUICK_SHARDS = 4
 
 FAULT_KINDS = ["silence", "errline", "wrongname", "raise_write", "raise_read", "old_firmware"]
@@ -44,6 +44,20 @@ class Sim:
         self.history = []
         self.flags = set()
         self.write_after_error = None
+        # witness of every error report that goes through the object's own record_error(): a report that is made
+        # and later wiped (err back to None) is "recorded, then replaced by nothing"
+        self.reported = []
+        if hasattr(self.obj, "record_error"):
+            orig_record = self.obj.record_error
+            sim = self
+
+            def record_error(message, *args, **kwargs):
+                sim.reported.append(message)
+                return orig_record(message, *args, **kwargs)
+            try:
+                self.obj.record_error = record_error
+            except AttributeError:
+                pass
 
     def fail(self, message):
         raise PropertyFailure(message, case=list(self.history))
@@ -87,6 +101,9 @@ class Sim:
             self.fail("recorded error was replaced: %r -> %r" % (err_before, obj.err))
         if err_before is not None and obj.err is None:
             self.fail("recorded error was cleared")
+        if self.reported and obj.err is None:
+            self.fail("an error was reported during this history (%r) but the object shows no recorded error "
+                      "afterwards: the record was wiped" % (self.reported[0],))
 
     def _connect(self, how):
         obj = self.obj
@@ -302,6 +319,31 @@ def warm_body(ctx, case):
     ctx.record(case, sim.flags | {"warm_history"}, nontrivial=latched)
 
 
+def flood_grid():
+    for kind in WARM_FAULTS:
+        for how in ("silent", "cannot_open", "nonebb", "old"):
+            yield ["flood", kind, how]
+
+
+def flood_body(ctx, case):
+    """An error is latched, then dozens of further failures are reported (an application polling connect() with
+    no usable board): the first message must survive all of them."""
+    _tag, kind, how = case
+    sim = Sim(ctx)
+    sim.step(["connect", "good"])
+    idx, action = WARM_FAULTS[kind]
+    sim.step(["call", "query", ["QS"], {idx: action}])
+    first = sim.obj.err
+    sim.step(["disconnect", None])
+    for _ in range(40):
+        sim.step(["connect", how])
+        sim.step(["call", "query_statusbyte", [], {}])
+    if first is None or sim.obj.err != first:
+        sim.fail("after 40 further failed connects the recorded error is %r, the first one was %r"
+                 % (sim.obj.err, first))
+    ctx.record(case, sim.flags | {"flood_of_later_errors"}, nontrivial=True)
+
+
 def close_grid():
     for exc in [None] + SERIAL_FAMILY:
         for m2 in sorted(em.METHODS):
@@ -319,6 +361,8 @@ def close_body(ctx, case):
 
 
 def run(ctx):
+    ctx.exhaustive("flood-grid", flood_grid(), flood_body,
+                   "5 fault kinds latch an error, then 40 failed connects of 4 kinds: the first message survives")
     ctx.exhaustive("close-grid", close_grid(), close_body,
                    "connect, one request, disconnect with close() succeeding / raising each serial exception, then "
                    "each of the 32 methods")
@@ -336,6 +380,9 @@ def run(ctx):
 def replay(ctx, part, case):
     if case and case[0] == "warm":
         warm_body(ctx, case)
+        return
+    if case and case[0] == "flood":
+        flood_body(ctx, case)
         return
     if case and case[0] == "close":
         close_body(ctx, case)
